@@ -12,7 +12,7 @@ NOTE = ("Trusted: CrossHair 0.0.110 + z3 5.1.0, CPython 3.12.1 asyncio, the Worl
 CHECKS = {
     "C01": ("Pool-size bound (live workers, num_running, is_full at idle) on every path of bounded programs over spawn/finish/fail/cancel/group-cancel/flush ops, any boundary placement t and any user-code site, pool size an unbounded symbolic integer (incl. 0 and the default).", "5 C01"),
     "C02": ("No task/slot lost: idle accounting (num_running, num_cancelled, free room) and end-of-run capacity probe on every path of bounded programs incl. slow callbacks and concurrent flushes; T1 histories excluded while that finding is open.", "5 C02"),
-    "C03": ("Lifecycle/callback exactness (conservation, R->E / R->C->E, exactly-once ordered callbacks, coroutine callbacks completed) on every path of bounded programs for all four callback kinds; T1 excluded while open.", "5 C03"),
+    "C03": ("Lifecycle/callback exactness (conservation, R->E / R->C->E, exactly-once ordered callbacks, coroutine callbacks completed) on every path of bounded programs for six callback kinds (none, plain, coroutine, slow coroutine, wraps-adapter, falsy callable object) and for tasks that finish inside their first step; T1 excluded while open.", "5 C03"),
     "C04": ("apply/start run exactly num invocations with the request's own args/kwargs and group, for symbolic size, num, shape, raising call site, competing request and lock/unlock/gather/cancel interleavings; T1/T2 excluded while open.", "5 C04"),
     "C05": ("map family: per-call concurrency bound, one-element look-ahead, work conservation at idle, element-wise ordered delivery with the raising element skipped, for symbolic L, num_concurrent (unbounded), size (unbounded), star variant; T1 excluded while open.", "5 C05"),
     "C06": ("cancel(ids): error class of the first offending id from harness-side state, all-or-nothing delivery, exactly-once CancelledError for named tasks, ids unbounded symbolic, arity <= 3; T1 excluded while open.", "5 C06"),
@@ -20,7 +20,7 @@ CHECKS = {
     "C08": ("gather_and_close: returns only when all requested work (incl. map elements) is done, returns normally without faults, until_closed never earlier, closed afterwards; prefix x completion-order programs; T1/T2/T3 excluded while open.", "5 C08"),
     "C09": ("Rejected requests (locked/closed/non-coroutine/num_concurrent<1 unbounded/duplicate group/negative size unbounded) raise a matching error and leave an identical observable snapshot; lock/unlock idempotent; unlock restores acceptance.", "5 C09"),
     "C10": ("Group membership == ids seen by the request's own workers, union, disjointness, generated-name pattern and freshness (incl. explicit names that imitate generated ones), unknown name error; bounded programs of named/unnamed requests and group cancels.", "5 C10"),
-    "C11": ("Ids increase by one in creation order per pool, never reused across flushes, task name == '<pool>_Task-<id>', callback id == id in its task's name, two pools (TaskPool + SimpleTaskPool, named/unnamed) counted independently.", "5 C11"),
+    "C11": ("Ids increase by one in creation order per pool, never reused across flushes, task name == '<pool>_Task-<id>', callback id == id in its task's name, several pools of both classes in one loop (named incl. digits-only, unnamed, two simple pools on one function) counted independently, unnamed pools distinctly named.", "5 C11"),
     "C12": ("Fault containment: worker, call-site, end-callback and cancel-callback faults vs. a fault-free twin run in the same path (sibling and later requests observe identical traces), capacity probe, flush/gather raise exactly an injected exception or nothing.", "5 C12"),
     "C13": ("flush never forgets a running task or one inside its callbacks, forgets everything finished before the call, flush(True) never raises, no end callback lost; overlapping flushes with slow callbacks. The T4 defect found here is repaired (fix: 0a23838).", "5 C13"),
     "C14": ("stop(n) for unbounded n / stop_all(): returned ids == the min(n, running) newest running ids descending, exactly those cancelled once, others untouched, over histories with gaps.", "5 C14"),
